@@ -484,7 +484,8 @@ func c12Check(r *verifmc.Report, cnt *c11Counts, t *ref.C11Type, input []byte, m
 	case mode != c12Whole:
 		// the input is a valid encoding; the value or the consumed length changed because a short read
 		// of the reader was taken for a complete one
-		sig = "Decode:short-read-not-completed"
+		rv, _, _ := ref.C11Dec(t, input)
+		sig = "Decode:short-read-not-completed@" + c12LeafGroup(c11FirstDiff(t, rv, val))
 	case rn != consumed:
 		sig = "Decode:wrong-consumed-length@" + ref.C11KindName(t)
 	default:
